@@ -147,8 +147,10 @@ CLAIMS = {
              "call that may release the storage (interprocedural may-release summaries + dataflow); String paths "
              "store the terminator at the length they set; First()[i] on a possibly empty String proven i < Length() "
              "(E-ZONE) and nullable pointer parameters dereferenced only under their test (CFG dominance); SIMD "
-             "Shift/Size/intrinsics tables and the vector+tail shape of Copy/SetToZero (three configurations in the "
-             "thorough tier); AlignSize; moved-from containers nulled. Not decided: sequence-model equality.",
+             "Shift/Size/intrinsics tables, the vector+tail shape of Copy/SetToZero and no register-wide access outside "
+             "the counted vector loop (three configurations in the thorough tier); AlignSize; moved-from containers "
+             "nulled; element references and same-class arguments that may alias the receiver (a += a[0], h += h) not used "
+             "after a reallocation; no code unit narrowed below 32 bits. Not decided: sequence-model equality.",
         note=TRUST + "Byte-wise relocation of elements is assumed valid (no self-pointers).",
         technique="static analysis: sibling destination check, borrow/alias dataflow, zone bounds, CFG dominance, constant tables",
         ref="DESIGN.md section 4 C14"),
@@ -174,7 +176,9 @@ CLAIMS = {
              "interprocedural may-release summaries). Raw new/delete only at the Memory seam and Allocate/Deallocate "
              "only in owning classes; destructor/move/copy/reset of the three tagged unions have an arm for every "
              "owning kind and TagBit::Clear disposes before it deallocates; containers dispose elements before the "
-             "block; a member destroyed in place is not used before re-initialisation; Make*Tag only on fresh "
+             "block; a member destroyed in place is not used before re-initialisation; a same-type argument (possibly "
+             "an element of the object: v = v[key]) is not read after the object released its content; values are "
+             "constructed in place only in slots insert() just created; Make*Tag only on fresh "
              "records; Value's discriminant is never overwritten over an owning payload. Not decided: net-zero "
              "allocation over all operation histories.",
         note=TRUST + "Elements are assumed relocatable by byte copy; by-reference parameters alias the receiver only "
